@@ -1130,7 +1130,22 @@ class Engine:
             vv = self.deref(st, val)
             if isinstance(vv, V) and isinstance(vv.t, Ty.Tuple):
                 parts = Ty.split(vv.t, vv.c)
-                if any(isinstance(e, ast.Starred) for e in tgt.elts):
+                stars = [i for i, e in enumerate(tgt.elts) if isinstance(e, ast.Starred)]
+                if len(stars) == 1:
+                    # a, *rest, z = <fixed-arity tuple>
+                    si = stars[0]
+                    nafter = len(tgt.elts) - si - 1
+                    if len(parts) < len(tgt.elts) - 1:
+                        raise Unsupported("unpack arity mismatch")
+                    for e, p in zip(tgt.elts[:si], parts[:si]):
+                        self.assign_target(st, e, self.box(st, p), node)
+                    mid = parts[si : len(parts) - nafter]
+                    # python binds a list; its fixed arity lets us keep a tuple
+                    self.assign_target(st, tgt.elts[si].value, Ty.mk_tuple(mid), node)
+                    for e, p in zip(tgt.elts[si + 1 :], parts[len(parts) - nafter :]):
+                        self.assign_target(st, e, self.box(st, p), node)
+                    return
+                if stars:
                     raise Unsupported("starred unpack")
                 if len(parts) != len(tgt.elts):
                     raise Unsupported("unpack arity mismatch")
